@@ -150,6 +150,44 @@ def correspondence(rep, ctx):
             if abs(F(a[k]) - F(b[k])) > Fraction(5, 10**14) * max(F(a[k]), F(b[k])):
                 fail(desc, f"Inventory gives {k}: {a[k]!r}, InventoryHP gives {b[k]!r}")
                 break
+    # scale / unit invariance and definition of the fractions on synthetic datasets (own half-lives and masses)
+    import synthetic
+    for k_ in range(6 if thorough else 2):
+        ds, sch, path = synthetic.build(rd, view, r, f"c14_{ctx.seed}_{k_}")
+        try:
+            from oracle import DatasetView as _DV
+            sview = _DV(ds)
+            for C in (rd.Inventory, rd.InventoryHP):
+                picks = r.sample(range(sview.n), min(sview.n, 3))
+                cont = {sview.names[i]: float(r.randint(1, 10**6)) for i in picks}
+                desc = f"{C.__name__}({cont!r}) on a synthetic dataset ({sch['names'][:4]}…)"
+                rep.case(("synthetic", k_, C.__name__, repr(cont)))
+                gen._count("synthetic-dataset")
+                try:
+                    inv = C(dict(cont), "num", True, ds)
+                    kinds = ["mass_fractions", "mole_fractions"] + (["activity_fractions"] if any(sview.rate[i] != 0 for i in picks) else [])
+                    kk = 1000 if C is rd.InventoryHP else 1000.0
+                    for kind in kinds:
+                        base = getattr(inv, kind)()
+                        # the definition, from this dataset's own constants
+                        ro = {"mass_fractions": inv.masses("g"), "mole_fractions": inv.moles("mol"), "activity_fractions": inv.activities("Bq")}[kind]
+                        tot_ = sum(F(v) for v in ro.values())
+                        for n_ in base:
+                            if abs(F(base[n_]) - F(ro[n_]) / tot_) > Fraction(1, 10**13):
+                                fail(desc, f"{kind}()[{n_}] = {base[n_]!r} is not read-out / total = {float(F(ro[n_]) / tot_)!r}")
+                                break
+                        for label, other in (("inv * k", inv * kk), ("k * inv", kk * inv), ("inv / k", inv / kk), ("inv + inv", inv + inv)):
+                            if other.decay_data is not ds:
+                                fail(desc, f"{label} is bound to dataset {other.decay_data.dataset_name!r}")
+                                break
+                            sc = getattr(other, kind)()
+                            if any(abs(F(sc[n_]) - F(base[n_])) > Fraction(1, 10**13) for n_ in base):
+                                fail(desc, f"{kind}() of {label} = {sc} differs from {base}")
+                                break
+                except Exception as e:  # noqa: BLE001
+                    fail(desc, f"raised {type(e).__name__}: {e}")
+        finally:
+            synthetic.cleanup(path)
     rep.corr["input_distribution"].update(gen.dist)
     rep.notes["mismatches"] = bad
 
